@@ -85,6 +85,21 @@ func (w *Worker) RunEquivCase(ec *EquivCase, property string) *SkelResult {
 		res.Findings = append(res.Findings, mkF("roundtrip-error", "Marshal and Unmarshal succeed for a schema that resolves", err.Error()))
 		return res
 	}
+	if ec.S == nil {
+		// scaffold observation: the document is reproduced up to the documented normalisations
+		// (s1.Schema may have been defaulted above: compare against the document plus that keyword)
+		var o map[string]any
+		if json.Unmarshal([]byte(ec.Doc), &o) == nil && o != nil {
+			if _, has := o["$schema"]; !has {
+				o["$schema"] = s1.Schema
+			}
+			ob, _ := json.Marshal(o)
+			if d := docRoundTripDiff(string(ob), b1); d != "" {
+				res.Findings = append(res.Findings, mkF("document-not-reproduced", "Marshal(Unmarshal(D)) is D up to boolean forms, integral floats and omitted zero-valued keywords", d))
+				return res
+			}
+		}
+	}
 	// scaffold observations: second marshal byte-identical
 	b2, err := json.Marshal(s2)
 	sameBytes := string(b2) == string(b1)
@@ -243,6 +258,19 @@ func GoSchemaFamily() []*EquivCase {
 			s.Properties = map[string]*jsonschema.Schema{"a": intS.CloneSchemas(), "b": str.CloneSchemas()}
 			s.PropertyOrder = []string{"b", "a"}
 		}},
+		{"PropertiesOrderStale", func(s *jsonschema.Schema) {
+			// as long as the map, but names a property that does not exist: b is unlisted
+			s.Properties = map[string]*jsonschema.Schema{"a": intS.CloneSchemas(), "b": {Not: &jsonschema.Schema{}}}
+			s.PropertyOrder = []string{"a", "gone"}
+		}},
+		{"PropertiesOrderSubset", func(s *jsonschema.Schema) {
+			s.Properties = map[string]*jsonschema.Schema{"a": intS.CloneSchemas(), "b": {Not: &jsonschema.Schema{}}, "zz": str.CloneSchemas()}
+			s.PropertyOrder = []string{"zz"}
+		}},
+		{"PropertiesOrderSuperset", func(s *jsonschema.Schema) {
+			s.Properties = map[string]*jsonschema.Schema{"a": intS.CloneSchemas(), "b": {Not: &jsonschema.Schema{}}}
+			s.PropertyOrder = []string{"gone1", "b", "gone2", "gone3"}
+		}},
 		{"PatternProperties", func(s *jsonschema.Schema) { s.PatternProperties = map[string]*jsonschema.Schema{"^a": str.CloneSchemas()} }},
 		{"AdditionalPropertiesFalse", func(s *jsonschema.Schema) { s.AdditionalProperties = &jsonschema.Schema{Not: &jsonschema.Schema{}} }},
 		{"AdditionalPropertiesTrue", func(s *jsonschema.Schema) { s.AdditionalProperties = &jsonschema.Schema{} }},
@@ -274,6 +302,10 @@ func GoSchemaFamily() []*EquivCase {
 		{"DefaultNull", func(s *jsonschema.Schema) { s.Default = json.RawMessage(`null`) }},
 		{"ExamplesEmpty", func(s *jsonschema.Schema) { s.Examples = []any{} }},
 		{"Extra", func(s *jsonschema.Schema) { s.Extra = map[string]any{"x-a": 1.0, "X": map[string]any{"type": "string"}, "Type": "string"} }},
+		{"ExtraCaseVariants", func(s *jsonschema.Schema) {
+			s.Type = "string"
+			s.Extra = map[string]any{"MaxLength": 1.0, "minlength": 5.0, "UNIQUEITEMS": true, "Required": []any{"a"}, "additionalproperties": false}
+		}},
 		{"ExtraEmpty", func(s *jsonschema.Schema) { s.Extra = map[string]any{} }},
 		{"Content", func(s *jsonschema.Schema) { s.ContentEncoding, s.ContentMediaType, s.ContentSchema = "base64", "application/json", intS.CloneSchemas() }},
 		// draft-07 shapes
@@ -314,7 +346,13 @@ func GoSchemaFamily() []*EquivCase {
 		out = append(out, &EquivCase{Name: "F-goschema/" + p.name, S: build(p), Draft: refsem.Draft2020})
 	}
 	// pairs: each part with a few fixed companions
-	companions := []int{0, 3, 35, 44, 56}
+	var companions []int
+	for i, p := range parts {
+		switch p.name {
+		case "Type", "Enum", "Properties", "UnevaluatedProperties", "IfThenElse":
+			companions = append(companions, i)
+		}
+	}
 	for i, p := range parts {
 		for _, ci := range companions {
 			if ci == i {
